@@ -3,6 +3,7 @@ package rules
 import (
 	"go/token"
 	"go/types"
+	"sort"
 	"strings"
 
 	"golang.org/x/tools/go/ssa"
@@ -27,6 +28,8 @@ func runC04(c *Ctx) {
 	r.Rule("R3-same-token", "claims are read only from the token that passed Verify on this path", 6)
 	r.Rule("R4-email-verified", "email_verified gate on every success return of the claim readers", 5)
 	r.Rule("R5-bearer-loaders", "bearer loader list = provider.CreateSessionFromToken + CreateTokenToSessionFunc(verifier.Verify)", 2)
+	r.Rule("R9-legacy-toggle-table", "each insecure OIDC toggle is converted from the legacy flag of the same meaning", 4)
+	r.Rule("R10-verifier-options-per-issuer", "every verifier is built from an options value of its own (no options object shared between issuers)", 2)
 	r.Rule("R8-claims-target-fresh", "every go-oidc Claims() target is a variable allocated in the calling invocation", 3)
 	r.Rule("R7-token-claims-first", "token claims are immutable after construction and take precedence; profile values only for claims the token lacks", 4)
 	r.Rule("R6-overrides-delegate", "OIDC-embedding providers' overrides succeed only after the embedded implementation succeeded", 8)
@@ -39,10 +42,14 @@ func runC04(c *Ctx) {
 	runC04R7(c)
 	runC04R8(c, "R8-claims-target-fresh")
 	runIssuerCheckOn(c, "R2-oidc-config")
+	runLegacyToggleTable(c, "R9-legacy-toggle-table")
+	runVerifierOptionsFresh(c, "R10-verifier-options-per-issuer")
 }
 
-func runC04R1(c *Ctx) {
-	rule := "R1-verifier"
+func runC04R1(c *Ctx) { runVerifierRule(c, "R1-verifier") }
+
+// runVerifierRule: the ID-token verifier accepts only with go-oidc ok and the own audience membership check (C04.R1, also C01: bearer credentials).
+func runVerifierRule(c *Ctx, rule string) {
 	verify := c.Fn(rule, "(*pkg/providers/oidc.idTokenVerifier).Verify")
 	va := c.Fn(rule, "(*pkg/providers/oidc.idTokenVerifier).verifyAudience")
 	iva := c.Fn(rule, "(*pkg/providers/oidc.idTokenVerifier).isValidAudience")
@@ -847,5 +854,97 @@ func runBearerEmailVerified(c *Ctx, rule string) {
 				c.bad(rule, key, p.Exit, "a bearer session is returned although email_verified may be present and false", p, at)
 			}
 		})
+	}
+}
+
+// runLegacyToggleTable: each insecure-* OIDC toggle of the structured options is fed, in the legacy
+// conversion, from the legacy flag of the same meaning and from nothing else — a copy-paste slip there
+// silently turns one relaxation (say, skipping issuer verification) into another (accepting unverified
+// e-mails, skipping the nonce).
+func runLegacyToggleTable(c *Ctx, rule string, only ...string) {
+	table := map[string]string{
+		"InsecureAllowUnverifiedEmail":   "InsecureOIDCAllowUnverifiedEmail",
+		"InsecureSkipIssuerVerification": "InsecureOIDCSkipIssuerVerification",
+		"InsecureSkipNonce":              "InsecureOIDCSkipNonce",
+		"SkipDiscovery":                  "SkipOIDCDiscovery",
+	}
+	want := map[string]bool{}
+	for _, o := range only {
+		want[o] = true
+	}
+	n := 0
+	var names []string
+	for k := range table {
+		names = append(names, k)
+	}
+	sort.Strings(names)
+	for _, to := range names {
+		if len(want) > 0 && !want[to] {
+			continue
+		}
+		from := table[to]
+		toF := c.Field(rule, "pkg/apis/options.OIDCOptions."+to)
+		fromF := c.Field(rule, "pkg/apis/options.LegacyProvider."+from)
+		if toF == nil || fromF == nil {
+			continue
+		}
+		for _, ref := range c.fieldRefs(toF) {
+			if ref.Store == nil || prog.Short(prog.FnPkg(ref.Fn).Path()) != "pkg/apis/options" {
+				continue
+			}
+			v := unwrap0(ref.Store.Val)
+			if k, isConst := v.(*ssa.Const); isConst && k.Value != nil {
+				continue // defaults (providerDefaults etc.)
+			}
+			n++
+			key := "toggle|" + to + "|" + fnKey(ref.Fn)
+			ok := walk.IsFieldLoad(v, fromF)
+			if f, isF := v.(*ssa.Field); isF && walk.FieldOf(f.X.Type(), f.Field) == fromF {
+				ok = true
+			}
+			if ok {
+				c.ok(rule, key, ref.In, to+" <- "+from)
+			} else {
+				c.R.Bad(rule, key, c.pos(ref.In), "the structured option "+to+" is not set from the legacy flag "+from+" in the legacy conversion: another flag now relaxes this check", nil, nil)
+			}
+		}
+	}
+	if n == 0 {
+		c.R.Unknown(rule, "toggle|none", "-", "the legacy conversion sets none of the insecure OIDC toggles from a legacy flag")
+	}
+}
+
+// runVerifierOptionsFresh: every NewProviderVerifier call is given an options value that the calling
+// function built itself (a local composite literal, possibly amended locally). An options object that is
+// shared between calls — a pointer parameter, a field — carries what one issuer's fallback set
+// (SkipDiscovery, a JWKS URL) over to the next issuer's verifier.
+func runVerifierOptionsFresh(c *Ctx, rule string) {
+	npv := c.Fn(rule, "pkg/providers/oidc.NewProviderVerifier")
+	if npv == nil {
+		return
+	}
+	n := 0
+	for _, cs := range c.callersOf(npv) {
+		n++
+		fn := cs.Parent()
+		key := "options-own|" + fnKey(fn)
+		arg := unwrap0(cs.Common().Args[1])
+		own := false
+		switch x := arg.(type) {
+		case *ssa.UnOp:
+			if al, ok := x.X.(*ssa.Alloc); ok && x.Op == token.MUL && al.Parent() == fn {
+				own = true
+			}
+		case *ssa.Alloc:
+			own = x.Parent() == fn
+		}
+		if own {
+			c.ok(rule, key, cs, "options built in the calling function")
+		} else {
+			c.R.Bad(rule, key, c.pos(cs), "a verifier is built from an options object that is not local to the call ("+describeValue(arg)+"): settings left there for one issuer (no-discovery fallback, its JWKS URL) are applied to the next issuer, whose tokens are then checked against another issuer's keys", nil, nil)
+		}
+	}
+	if n == 0 {
+		c.R.Unknown(rule, "options-own|none", "-", "NewProviderVerifier has no caller")
 	}
 }
